@@ -48,6 +48,11 @@ CLAIMED.update({
    note='Layer A is an abstraction by hand (see C02). ' + FTB,
    technique='Coq proof (position invariant into the written sequence, induction over event traces) + trace replay of the abstract model + per-frame differential correspondence; oracle: displayed values after every real frame form a subsequence',
    design='5/C10'),
+ 'C15': dict(
+   text='Coq theorems over the state systems, run conditions and receivers of the frame-level model, for ALL executable orders and ALL oracles: over every run of application operations and frames ClientState only moves Disconnected -> Connecting -> Connected -> Disconnected (or Connecting -> Disconnected); it becomes Connected only one frame after verify_client_connected ran with a client transport present, in state Connecting, and renet reporting Connected; after the application removes its transport the state is Disconnected within two frames; ServerState follows within two frames whether the peer hosts; a gated replication system is the identity (acts only in the Connected states); InitialSyncFinished increases by exactly one per FinishedInitialSync polled and once when hosting starts, the host sends exactly one per snapshot as the LAST message of the batch, and by the end of the frame in which the client polls it everything that preceded it on the link has been handled and all queued commands applied. Refuted with machine-checked witnesses: Connected implies the renet client is connected (known finding S8), and the resource_removed bit being always set (transport inserted and removed between two evaluations: residual of S10).' + FNOTE,
+   note='Handshake timing (when renet reports connected, when the host sees the client) is oracle input; netcode time-outs are outside the model. The two-frame theorems carry explicit hypotheses (no panic in the first frame, the transport constant during it, no key collision between exotic system ids). ' + FTB,
+   technique='Coq proof (exact effect of every schedule position on the session fields; invariants over per-peer runs) + per-frame differential correspondence; oracle: state path, stuck states, InitialSyncFinished count per join',
+   design='5/C15'),
  'C16': dict(
    text='Coq theorems over to_skinned_mapper / to_skinned_mesh / apply_component_change of the frame-level model: for any two peers with arbitrary local entity-id spaces, any joint list (any length, order, repeats) of synchronized entities and any bind poses, what the sender announces decodes on the receiver to the same number of joints, in order, each the receiver replica of the same uuid, with equal bind poses (C16_joints_translated, C16_same_joint_count); a received mapper is installed as exactly the translated mesh, replacing the old value (C16_received_mapper_installed).' + FNOTE,
    note='Delivery through the snapshot when a SkinnedMesh and its joints live in different archetypes and the snapshot spans several frames (suspected S13) is not exercised: the model orders a snapshot by entity id, the real code by archetype. ' + FTB,
